@@ -11,6 +11,7 @@ From Coq Require Import ZArith NArith List Bool.
 From SV Require Import Fmt.VtfPixelExpr Fmt.VtfPixelExprProofs Fmt.VtfLayout Fmt.VtfLayoutProofs.
 From SV Require Import Gen.PixelCodecs_gen Gen.VtfLayout_gen Fmt.VtfGenProofs.
 From SV Require Import Fmt.VtfFrameSM Fmt.VtfFrameSMProofs Gen.VtfFrameSM_gen.
+From SV Require Import Bin.Struct Fmt.VtfContainer Fmt.VtfContainerProofs Gen.VtfContainer_gen.
 Import ListNotations.
 
 (** ** Pixels *)
@@ -219,3 +220,34 @@ Theorem c15_parent_not_loaded_refuted :
   chain_ok pinned_cfg = false
   /\ toy_save ideal_rescale pinned_cfg [lazy 1; lazy 2; cleared] = [Some 1; Some 2; Some 201].
 Proof. exact parent_not_loaded_refuted. Qed.
+
+(** ** The container: header, resource directory, data blocks, frames (vtf.py: VTF.save / VTF.read) and the
+    particle-sheet records.  Every struct.pack / struct.unpack site is regenerated from the source as a [site]
+    (format strings and the ORDER of the fields on both sides); the check discharges [site_ok] for each of them. *)
+Theorem c15_site_roundtrip : forall s, site_ok s = true ->
+  forall vals, fits (fmt_of (w_fmt s)) vals = true ->
+  exists bs, pack (fmt_of (w_fmt s)) vals = Some bs
+             /\ List.length bs = calcsize (fmt_of (r_fmt s))
+             /\ unpack (fmt_of (r_fmt s)) bs = Some vals
+             /\ combine (r_fields s) vals = combine (w_fields s) vals
+             /\ (r_len s = (-1)%Z \/ r_len s = Z.of_nat (List.length bs)).
+Proof. exact site_roundtrip. Qed.
+(** Consecutive blocks behind any prefix are found again at the running offsets: resource data, thumbnail, frames. *)
+Theorem c15_blocks_at_offsets : forall (blocks : list (list N)) (pre post : list N),
+  Forall2 (fun off b => slice (pre ++ List.concat blocks ++ post) off (List.length b) = b)
+          (offsets (List.length pre) (map (@List.length N) blocks)) blocks.
+Proof. exact blocks_at_offsets. Qed.
+(** Frame ordering: reading the frames in the order they were written, with the same sizes, gives every frame its own bytes. *)
+Theorem c15_frames_read_back : forall (frames : list (list N)) (pre : list N),
+  Forall2 (fun off f => slice (pre ++ List.concat frames) off (List.length f) = f)
+          (offsets (List.length pre) (map (@List.length N) frames)) frames.
+Proof. exact frames_read_back. Qed.
+(** A resource stored out of line: [length][data] at the offset recorded in the directory is read back. *)
+Theorem c15_block_read_back : forall F (d pre post blk : list N),
+  wf_fmt (f_len F) = true -> fits (f_len F) [VInt (Z.of_nat (List.length d))] = true ->
+  block F d = Some blk -> read_block F (pre ++ blk ++ post) (List.length pre) = Some d.
+Proof. exact block_read_back. Qed.
+(** Texture coordinates of a particle sheet: four 32-bit float patterns in, the same patterns out. *)
+Theorem c15_tex_roundtrip : forall S t, wf_fmt (s_tex S) = true -> fits (s_tex S) (map VFloat t) = true ->
+  forall pre post, exists bs, pack_tex S t = Some bs /\ read_tex S (pre ++ bs ++ post) (List.length pre) = Some t.
+Proof. exact tex_roundtrip. Qed.
